@@ -10,7 +10,7 @@
  *        as extended attributes, sorted)
  *   open f=<format> [bpb=<n>] [bilb=<n>] [filter=<name>] [opt=<write options>] [ropt=<read options>]
  *   ent k=v ...                             -> h=<st> w=<n>:<st> f=<st> len=<archive bytes so far, bpb=0 only>
- *        optional metadata: atime= ctime= btime= <sec>[.<nsec>], sparse=<off>:<len>,.. (the body is NUL
+ *        optional metadata: fflags=<text as archive_entry_copy_fflags_text takes it>, atime= ctime= btime= <sec>[.<nsec>], sparse=<off>:<len>,.. (the body is NUL
  *        outside the listed regions), acl=<T>:<tag>:<permset>:<id>:<name hex>,..  xattr=<name hex>:<value hex>,..
  *   close | abort                           -> c=<st> len= hash= [hex=] fmt=<detected code> n=<entries read> end=<st>
  *   rd <i>                                  -> the i-th entry read back
@@ -277,6 +277,7 @@ static char *unhex_str(const char *hex, size_t *len)
 static void set_extras(struct archive_entry *e, char **w, int n)
 {
 	const char *s;
+	if ((s = kv(w, n, "fflags")) && strcmp(s, "-")) archive_entry_copy_fflags_text(e, s);
 	set_time(e, kv(w, n, "atime"), archive_entry_set_atime);
 	set_time(e, kv(w, n, "ctime"), archive_entry_set_ctime);
 	set_time(e, kv(w, n, "btime"), archive_entry_set_birthtime);
@@ -420,6 +421,7 @@ static void put_extras(char **o, struct archive_entry *e)
 	put_time(o, "atime", archive_entry_atime_is_set(e), (long long)archive_entry_atime(e), archive_entry_atime_nsec(e));
 	put_time(o, "ctime", archive_entry_ctime_is_set(e), (long long)archive_entry_ctime(e), archive_entry_ctime_nsec(e));
 	put_time(o, "btime", archive_entry_birthtime_is_set(e), (long long)archive_entry_birthtime(e), archive_entry_birthtime_nsec(e));
+	{ const char *ff = archive_entry_fflags_text(e); if (ff && *ff) *o += sprintf(*o, " fflags=%s", ff); }
 	int ns = archive_entry_sparse_reset(e);
 	if (ns > 0) {
 		*o += sprintf(*o, " sparse=");
